@@ -19,7 +19,7 @@ from vf.core import Fail, Leg, HarnessError, tally
 
 LEVEL = "exploration"
 ASSUMPTIONS = [
-    "labels are whitespace-free, names are one stripped line without '@' or '#'",
+    "labels are whitespace-free (any other printable characters incl. '#' and '@'), names are one stripped non-empty line",
     "mol2 cannot express isotopes, formal charges, stereo flags, attributes or bond orders 4-6: not compared",
     "first-cycle atom/bond type information loss is allowed; acceptance, element, and the second-cycle text fixed point are required",
     "|coordinate| < 1e5 so that the fixed-width field keeps 6 decimals",
